@@ -1,8 +1,262 @@
-import Hidi
-namespace Hidi.Props.C07
-open Hidi
+/-
+  C07 — bidirectional controller: one side at a time, the side left behind is explicitly zeroed;
+  while CC learning is held, deflections up to half travel transmit nothing.
 
-/-- placeholder obligation replaced by the real theorems below as they are proved -/
-theorem init_not_dead (cfg : Config) : (Dev.init cfg).dead = false := rfl
+  Model: `Dev.bidirCC` / `Dev.absCC` / `Dev.handleAbs` (`Hidi/Engine.lean`).  The receiver is
+  `Spec.recvCC` folded over the emitted messages, read with `Spec.ccOf` (last value per
+  (channel, controller), 0 when never set).
+-/
+import Hidi
+import HidiProofs.AxisKeyLemmas
+namespace Hidi.Props.C07
+open Hidi Hidi.Spec Hidi.AxisKeyLemmas
+
+/-- what the device believes (`ccZeroed`) is true at the receiver, and at most one side is non-zero -/
+def SideInv (a : Analog) (chP chN : Nat) (d : Dev) (R : List ((Nat × Nat) × Nat)) : Prop :=
+  (a.cc ∈ d.ccZeroed → ccOf R (chP, a.cc) = 0) ∧ (a.ccNeg ∈ d.ccZeroed → ccOf R (chN, a.ccNeg) = 0) ∧
+  (ccOf R (chP, a.cc) = 0 ∨ ccOf R (chN, a.ccNeg) = 0)
+
+/-! ### `bidirCC` without the `let`s -/
+
+theorem bidirCC_neg (d : Dev) (a : Analog) (adj : Rat) :
+    d.bidirCC a true adj =
+      if a.cc ∈ d.ccZeroed then
+        (d.setZeroed a.ccNeg false, [ccEvent (chanOf d.channel a.chOffNeg) a.ccNeg (ccByte adj)])
+      else
+        ((d.setZeroed a.cc true).setZeroed a.ccNeg false,
+         [ccEvent (chanOf d.channel a.chOffNeg) a.ccNeg (ccByte adj), ccEvent (chanOf d.channel a.chOff) a.cc 0]) := by
+  unfold Dev.bidirCC
+  by_cases h : a.cc ∈ d.ccZeroed <;> simp [h]
+
+theorem bidirCC_pos (d : Dev) (a : Analog) (adj : Rat) :
+    d.bidirCC a false adj =
+      if a.ccNeg ∈ d.ccZeroed then
+        (d.setZeroed a.cc false, [ccEvent (chanOf d.channel a.chOff) a.cc (ccByte adj)])
+      else
+        ((d.setZeroed a.ccNeg true).setZeroed a.cc false,
+         [ccEvent (chanOf d.channel a.chOff) a.cc (ccByte adj), ccEvent (chanOf d.channel a.chOffNeg) a.ccNeg 0]) := by
+  unfold Dev.bidirCC
+  by_cases h : a.ccNeg ∈ d.ccZeroed <;> simp [h]
+
+theorem setZeroed_channel (d : Dev) (c : Nat) (b : Bool) : (d.setZeroed c b).channel = d.channel := rfl
+theorem setZeroed_true (d : Dev) (c : Nat) : (d.setZeroed c true).ccZeroed = sinsert c d.ccZeroed := rfl
+theorem setZeroed_false (d : Dev) (c : Nat) : (d.setZeroed c false).ccZeroed = serase c d.ccZeroed := rfl
+
+/-- `bidirCC` never changes the device's channel -/
+theorem bidirCC_channel (d : Dev) (a : Analog) (neg : Bool) (adj : Rat) :
+    (d.bidirCC a neg adj).1.channel = d.channel := by
+  cases neg
+  · rw [bidirCC_pos]; split <;> rfl
+  · rw [bidirCC_neg]; split <;> rfl
+
+/-! ### the theorems -/
+
+/-- the invariant holds initially (nothing zeroed, receiver silent) -/
+theorem C07_init (a : Analog) (chP chN : Nat) (cfg : Config) : SideInv a chP chN (Dev.init cfg) [] := by
+  refine ⟨?_, ?_, Or.inl rfl⟩ <;> intro h <;> simp [Dev.init] at h
+
+/-- general form of the step: the channels only need to be what `bidirCC` computes; none of the range
+    assumptions is needed (a channel computed by `chanOf` is always below 16) -/
+theorem step_core (a : Analog) (d : Dev) (R : List ((Nat × Nat) × Nat)) (neg : Bool) (adj : Rat)
+    (hd : a.cc ≠ a.ccNeg)
+    (hinv : SideInv a (chanOf d.channel a.chOff) (chanOf d.channel a.chOffNeg) d R) :
+    SideInv a (chanOf d.channel a.chOff) (chanOf d.channel a.chOffNeg) (d.bidirCC a neg adj).1
+      ((d.bidirCC a neg adj).2.foldl recvCC R) ∧
+    (if neg then ccOf ((d.bidirCC a neg adj).2.foldl recvCC R) (chanOf d.channel a.chOff, a.cc) = 0
+     else ccOf ((d.bidirCC a neg adj).2.foldl recvCC R) (chanOf d.channel a.chOffNeg, a.ccNeg) = 0) ∧
+    ccOf ((d.bidirCC a neg adj).2.foldl recvCC R)
+      (if neg then (chanOf d.channel a.chOffNeg, a.ccNeg) else (chanOf d.channel a.chOff, a.cc)) = ccByte adj := by
+  obtain ⟨hP, hN, _⟩ := hinv
+  have hcP := chanOf_lt d.channel a.chOff
+  have hcN := chanOf_lt d.channel a.chOffNeg
+  have kne : (chanOf d.channel a.chOff, a.cc) ≠ (chanOf d.channel a.chOffNeg, a.ccNeg) := by
+    intro h; exact hd (Prod.mk.inj h).2
+  have hd' : a.ccNeg ≠ a.cc := fun h => hd h.symm
+  cases neg
+  · -- positive side
+    rw [bidirCC_pos]
+    by_cases hz : a.ccNeg ∈ d.ccZeroed
+    · have z : ccOf (ainsert (chanOf d.channel a.chOff, a.cc) (ccByte adj) R) (chanOf d.channel a.chOffNeg, a.ccNeg) = 0 := by
+        rw [ccOf_ainsert_ne R kne.symm]; exact hN hz
+      simp only [if_pos hz, List.foldl_cons, List.foldl_nil, recvCC_ccEvent hcP, Bool.false_eq_true, if_false]
+      refine ⟨⟨?_, fun _ => z, Or.inr z⟩, z, ccOf_ainsert_self _ _ _⟩
+      intro hm
+      rw [setZeroed_false, mem_serase] at hm
+      exact absurd rfl hm.2
+    · have z : ccOf (ainsert (chanOf d.channel a.chOffNeg, a.ccNeg) 0
+            (ainsert (chanOf d.channel a.chOff, a.cc) (ccByte adj) R)) (chanOf d.channel a.chOffNeg, a.ccNeg) = 0 :=
+        ccOf_ainsert_self _ _ _
+      simp only [if_neg hz, List.foldl_cons, List.foldl_nil, recvCC_ccEvent hcP, recvCC_ccEvent hcN,
+        Bool.false_eq_true, if_false]
+      refine ⟨⟨?_, fun _ => z, Or.inr z⟩, z, ?_⟩
+      · intro hm
+        rw [setZeroed_false, mem_serase] at hm
+        exact absurd rfl hm.2
+      · rw [ccOf_ainsert_ne _ kne, ccOf_ainsert_self]
+  · -- negative side
+    rw [bidirCC_neg]
+    by_cases hz : a.cc ∈ d.ccZeroed
+    · have z : ccOf (ainsert (chanOf d.channel a.chOffNeg, a.ccNeg) (ccByte adj) R) (chanOf d.channel a.chOff, a.cc) = 0 := by
+        rw [ccOf_ainsert_ne R kne]; exact hP hz
+      simp only [if_pos hz, List.foldl_cons, List.foldl_nil, recvCC_ccEvent hcN, if_true]
+      refine ⟨⟨fun _ => z, ?_, Or.inl z⟩, z, ccOf_ainsert_self _ _ _⟩
+      intro hm
+      rw [setZeroed_false, mem_serase] at hm
+      exact absurd rfl hm.2
+    · have z : ccOf (ainsert (chanOf d.channel a.chOff, a.cc) 0
+            (ainsert (chanOf d.channel a.chOffNeg, a.ccNeg) (ccByte adj) R)) (chanOf d.channel a.chOff, a.cc) = 0 :=
+        ccOf_ainsert_self _ _ _
+      simp only [if_neg hz, List.foldl_cons, List.foldl_nil, recvCC_ccEvent hcP, recvCC_ccEvent hcN, if_true]
+      refine ⟨⟨fun _ => z, ?_, Or.inl z⟩, z, ?_⟩
+      · intro hm
+        rw [setZeroed_false, mem_serase] at hm
+        exact absurd rfl hm.2
+      · rw [ccOf_ainsert_ne _ kne.symm, ccOf_ainsert_self]
+
+/-- one transmitted event keeps the invariant, and afterwards the side NOT deflected to is 0 at the receiver -/
+theorem C07_step (a : Analog) (d : Dev) (R : List ((Nat × Nat) × Nat)) (neg : Bool) (adj : Rat)
+    (hd : a.cc ≠ a.ccNeg) (_hch : d.channel < 16) (_hoP : a.chOff ≤ 15) (_hoN : a.chOffNeg ≤ 15)
+    (_hcP : a.cc ≤ 119) (_hcN : a.ccNeg ≤ 119)
+    (hinv : SideInv a (chanOf d.channel a.chOff) (chanOf d.channel a.chOffNeg) d R) :
+    let r := d.bidirCC a neg adj
+    SideInv a (chanOf d.channel a.chOff) (chanOf d.channel a.chOffNeg) r.1 (r.2.foldl recvCC R) ∧
+    (if neg then ccOf (r.2.foldl recvCC R) (chanOf d.channel a.chOff, a.cc) = 0
+     else ccOf (r.2.foldl recvCC R) (chanOf d.channel a.chOffNeg, a.ccNeg) = 0) ∧
+    r.1.channel = d.channel := by
+  intro r
+  have h := step_core a d R neg adj hd hinv
+  exact ⟨h.1, h.2.1, bidirCC_channel d a neg adj⟩
+
+/-- the transmitted value goes to the side deflected to -/
+theorem C07_side_value (a : Analog) (d : Dev) (R : List ((Nat × Nat) × Nat)) (neg : Bool) (adj : Rat)
+    (hd : a.cc ≠ a.ccNeg) (_hch : d.channel < 16) (_hoP : a.chOff ≤ 15) (_hoN : a.chOffNeg ≤ 15)
+    (_hcP : a.cc ≤ 119) (_hcN : a.ccNeg ≤ 119)
+    (hinv : SideInv a (chanOf d.channel a.chOff) (chanOf d.channel a.chOffNeg) d R) :
+    ccOf ((d.bidirCC a neg adj).2.foldl recvCC R)
+      (if neg then (chanOf d.channel a.chOffNeg, a.ccNeg) else (chanOf d.channel a.chOff, a.cc)) = ccByte adj :=
+  (step_core a d R neg adj hd hinv).2.2
+
+/-- general form of `C07_explicit_zero` (no range assumptions needed) -/
+theorem explicit_zero_core (a : Analog) (d : Dev) (neg : Bool) (adj : Rat)
+    (h : (if neg then a.cc else a.ccNeg) ∉ d.ccZeroed) :
+    (if neg then ccMsg (chanOf d.channel a.chOff) a.cc 0 else ccMsg (chanOf d.channel a.chOffNeg) a.ccNeg 0)
+      ∈ (d.bidirCC a neg adj).2 := by
+  cases neg
+  · simp only [Bool.false_eq_true, if_false] at h ⊢
+    rw [bidirCC_pos, if_neg h, ← ccEvent_eq_ccMsg (chanOf_lt _ _)]
+    simp
+  · simp only [if_true] at h ⊢
+    rw [bidirCC_neg, if_neg h, ← ccEvent_eq_ccMsg (chanOf_lt _ _)]
+    simp
+
+/-- crossing: if the controller being left is not marked zeroed (in particular: if the previous transmitted event
+    was on the other side, see `C07_marks` and `C07_crossing`), an explicit 0 for it is part of the output -/
+theorem C07_explicit_zero (a : Analog) (d : Dev) (neg : Bool) (adj : Rat)
+    (_hd : a.cc ≠ a.ccNeg) (_hch : d.channel < 16) (_hoP : a.chOff ≤ 15) (_hoN : a.chOffNeg ≤ 15)
+    (_hcP : a.cc ≤ 119) (_hcN : a.ccNeg ≤ 119)
+    (h : (if neg then a.cc else a.ccNeg) ∉ d.ccZeroed) :
+    (if neg then ccMsg (chanOf d.channel a.chOff) a.cc 0 else ccMsg (chanOf d.channel a.chOffNeg) a.ccNeg 0)
+      ∈ (d.bidirCC a neg adj).2 :=
+  explicit_zero_core a d neg adj h
+
+/-- after an event on one side, that side's controller is marked not-zeroed (so the next event on the other side
+    sends the explicit 0) -/
+theorem C07_marks (a : Analog) (d : Dev) (neg : Bool) (adj : Rat) :
+    (if neg then a.ccNeg else a.cc) ∉ (d.bidirCC a neg adj).1.ccZeroed := by
+  cases neg
+  · simp only [Bool.false_eq_true, if_false]
+    rw [bidirCC_pos]
+    split <;> (rw [setZeroed_false, mem_serase]; exact fun hm => hm.2 rfl)
+  · simp only [if_true]
+    rw [bidirCC_neg]
+    split <;> (rw [setZeroed_false, mem_serase]; exact fun hm => hm.2 rfl)
+
+/-- the two-event reading of "crossing": an event on one side followed by an event on the other side
+    (whatever the values) contains the explicit 0 for the side that was left -/
+theorem C07_crossing (a : Analog) (d : Dev) (neg : Bool) (adj adj' : Rat) :
+    (if neg then ccMsg (chanOf d.channel a.chOff) a.cc 0 else ccMsg (chanOf d.channel a.chOffNeg) a.ccNeg 0)
+      ∈ ((d.bidirCC a (!neg) adj).1.bidirCC a neg adj').2 := by
+  have hm := C07_marks a d (!neg) adj
+  have hc : (d.bidirCC a (!neg) adj).1.channel = d.channel := bidirCC_channel d a (!neg) adj
+  have hx := explicit_zero_core a (d.bidirCC a (!neg) adj).1 neg adj'
+  rw [hc] at hx
+  apply hx
+  cases neg <;> simpa using hm
+
+/-- one step of the receiver-coupled run used in `C07_sequence` -/
+def seqStep (a : Analog) (s : Dev × List ((Nat × Nat) × Nat)) (e : Bool × Rat) : Dev × List ((Nat × Nat) × Nat) :=
+  let r := s.1.bidirCC a e.1 e.2; (r.1, r.2.foldl recvCC s.2)
+
+theorem seq_inv (a : Analog) (hd : a.cc ≠ a.ccNeg) (ch0 : Nat) (evs : List (Bool × Rat))
+    (s : Dev × List ((Nat × Nat) × Nat)) (hc : s.1.channel = ch0)
+    (hinv : SideInv a (chanOf ch0 a.chOff) (chanOf ch0 a.chOffNeg) s.1 s.2) :
+    (evs.foldl (seqStep a) s).1.channel = ch0 ∧
+    SideInv a (chanOf ch0 a.chOff) (chanOf ch0 a.chOffNeg) (evs.foldl (seqStep a) s).1 (evs.foldl (seqStep a) s).2 := by
+  induction evs generalizing s with
+  | nil => exact ⟨hc, hinv⟩
+  | cons e es ih =>
+    rw [List.foldl_cons]
+    subst hc
+    apply ih
+    · exact bidirCC_channel s.1 a e.1 e.2
+    · exact (step_core a s.1 s.2 e.1 e.2 hd hinv).1
+
+/-- any sequence of transmitted events (sides and values arbitrary) keeps "at most one side non-zero" -/
+theorem C07_sequence (a : Analog) (cfg : Config)
+    (hd : a.cc ≠ a.ccNeg) (_hch : (Dev.init cfg).channel < 16) (_hoP : a.chOff ≤ 15) (_hoN : a.chOffNeg ≤ 15)
+    (_hcP : a.cc ≤ 119) (_hcN : a.ccNeg ≤ 119) (evs : List (Bool × Rat)) :
+    let fin := evs.foldl (fun (s : Dev × List ((Nat × Nat) × Nat)) e =>
+      let r := s.1.bidirCC a e.1 e.2; (r.1, r.2.foldl recvCC s.2)) (Dev.init cfg, [])
+    ccOf fin.2 (chanOf (Dev.init cfg).channel a.chOff, a.cc) = 0 ∨
+    ccOf fin.2 (chanOf (Dev.init cfg).channel a.chOffNeg, a.ccNeg) = 0 := by
+  intro fin
+  exact (seq_inv a hd (Dev.init cfg).channel evs (Dev.init cfg, []) rfl (C07_init a _ _ cfg)).2.2.2
+
+/-- the same from any state in which the invariant holds (not only the initial one) -/
+theorem C07_sequence_from (a : Analog) (d : Dev) (R : List ((Nat × Nat) × Nat)) (hd : a.cc ≠ a.ccNeg)
+    (hinv : SideInv a (chanOf d.channel a.chOff) (chanOf d.channel a.chOffNeg) d R) (evs : List (Bool × Rat)) :
+    let fin := evs.foldl (fun (s : Dev × List ((Nat × Nat) × Nat)) e =>
+      let r := s.1.bidirCC a e.1 e.2; (r.1, r.2.foldl recvCC s.2)) (d, R)
+    ccOf fin.2 (chanOf d.channel a.chOff, a.cc) = 0 ∨ ccOf fin.2 (chanOf d.channel a.chOffNeg, a.ccNeg) = 0 := by
+  intro fin
+  exact (seq_inv a hd d.channel evs (d, R) rfl hinv).2.2.2
+
+/-! ### the CC-learning gate -/
+
+theorem releaseAxis_cfg (d : Dev) (code : Code) : (d.releaseAxis code).1.cfg = d.cfg := by
+  rw [releaseAxis_frame]
+theorem releaseAxis_lastAna (d : Dev) (code : Code) : (d.releaseAxis code).1.lastAna = d.lastAna := by
+  rw [releaseAxis_frame]
+theorem releaseAxis_learning (d : Dev) (code : Code) : (d.releaseAxis code).1.learning = d.learning := by
+  rw [releaseAxis_frame]
+
+/-- CC-learning gate: while learning is held, `Dev.handleAbs` transmits nothing for a new position `v` with
+    `|v| ≤ 1/2` (the shaped, flipped value as the device computes it) — whatever the kind of the axis entry.
+    The only output is the release of what the key emulation of this axis still held (entries that are not `key`). -/
+theorem C07_learning_gate (d : Dev) (sub : Sub) (node : String) (code : Code) (raw : Int)
+    (m : Mapping) (a : Analog) (dz : Rat)
+    (hm : d.curMap = some m) (ha : alookup (sub, code) m.analog = some a)
+    (hdz : m.deadzone sub code = some dz) (hl : d.learning = true)
+    (hnew : (alookup (sub, code) d.lastAna).getD 0 ≠
+      shapeRaw ((alookup (node, code) d.cfg.axes).getD (0, 0)).1 ((alookup (node, code) d.cfg.axes).getD (0, 0)).2
+        a.dzCenter dz raw)
+    (hv : ¬ (flipVal (decide (((alookup (node, code) d.cfg.axes).getD (0, 0)).1 < 0) || a.dzCenter) a.flip
+              (shapeRaw ((alookup (node, code) d.cfg.axes).getD (0, 0)).1 ((alookup (node, code) d.cfg.axes).getD (0, 0)).2
+                a.dzCenter dz raw) < -1/2 ∨
+            1/2 < flipVal (decide (((alookup (node, code) d.cfg.axes).getD (0, 0)).1 < 0) || a.dzCenter) a.flip
+              (shapeRaw ((alookup (node, code) d.cfg.axes).getD (0, 0)).1 ((alookup (node, code) d.cfg.axes).getD (0, 0)).2
+                a.dzCenter dz raw))) :
+    (d.handleAbs sub node code raw).2 = (if a.kind = .key then [] else (d.releaseAxis code).2) := by
+  unfold Dev.handleAbs
+  simp only [hm, ha, hdz]
+  by_cases hk : a.kind = .key
+  · simp only [hk, if_true]
+    rw [if_neg hnew]
+    simp only [hl, true_and]
+    rw [if_pos hv]
+  · simp only [hk, if_false, releaseAxis_cfg, releaseAxis_lastAna, releaseAxis_learning]
+    rw [if_neg hnew]
+    simp only [hl, true_and]
+    rw [if_pos hv]
 
 end Hidi.Props.C07
